@@ -82,7 +82,7 @@ def run(sc, external, env_extra=None):
         h.update(obj.tobytes())
         return EvaluatorResult(objectives=obj, constraints=con)
 
-    old_env = {k: os.environ.get(k) for k in ("PATH", "RV_KILL_AFTER", "RV_CHILD_ERROR_AFTER")}
+    old_env = {k: os.environ.get(k) for k in ("PATH", "RV_KILL_AFTER", "RV_CHILD_ERROR_AFTER", "RV_CHILD_ERROR_EMPTY")}
     os.environ["PATH"] = BIN + ":/venv/bin:" + old_env["PATH"]
     for k, v in (env_extra or {}).items():
         os.environ[k] = str(v)
@@ -130,6 +130,8 @@ def drive(sc):
         env["RV_KILL_AFTER"] = sc["after"]
     elif fault == "childerror":
         env["RV_CHILD_ERROR_AFTER"] = sc["after"]
+        if sc.get("empty"):
+            env["RV_CHILD_ERROR_EMPTY"] = "1"
     r = run(sc, True, env)
     e = {"ev": "Run", "fault": fault, "outcome": r["outcome"], "childalive": r["childalive"], "hang": r["hang"],
          "sigExt": 0, "sigIn": 0, "extoutcome": "", "inoutcome": ""}
@@ -167,6 +169,7 @@ def extra_scenarios(tier, seed):
         out.append({"kind": "fault", "fault": "raise", "raiseAt": j, "method": "slsqp"})
     out.append({"kind": "fault", "fault": "stop", "method": "slsqp", "maxfun": 2})
     out.append({"kind": "fault", "fault": "childerror", "after": 1, "method": "slsqp"})
+    out.append({"kind": "fault", "fault": "childerror", "after": 2, "method": "slsqp", "empty": True})
     if tier == "thorough":
         out.append({"kind": "fault", "fault": "childerror", "after": 3, "method": "cobyla"})
     out.append({"kind": "fault", "fault": "none", "method": "slsqp", "maxfun": 0})
